@@ -1,4 +1,5 @@
 import NibabelModel.Model.C08
+import NibabelModel.Model.C08_Any
 import Driver.Util
 /-! Line-protocol driver for C08: `C08 <op> <args...>` -> `<outcome> <plain length>`.
 
@@ -13,6 +14,13 @@ import Driver.Util
     * `trk <nsc> <npr> <npts a,b|-> <count _|n> <orig 0|1> <k> <m> <strict>`
     * `tck <hex header lines a,b|-> <npts a,b|-> <k> <m> <strict>`
     * `tckb <buffer bytes> <hex header lines> <npts> <k> <m> <strict>`  the chunked loop of `_read` with that buffer size
+    * `tckg <buffer bytes> <hex header lines> <npts> <k> <m> <sched c,c,..|->`  `_read` over a SHORT-READING file object:
+      the i-th `readinto` of the data loop delivers at most `c` bytes (`f`: in full, `r`: raises) — `tckReadBG`/`schedRd`
+    * `trkg <nsc> <npr> <npts> <k> <m> <T>`  TRK reader over a file object that raises on every request reaching
+      beyond byte `T` (`trkReadGenG`; `T ≥ m`: never before the end of the available bytes)
+    * `hdrtab <hdrSize> <sniffLen> <exts> <fixedOff _|n> <footer> <len> <strict>`  header phase of `nib.load` and of the
+      class loader on a header file of `len` synthetic bytes: `<X|K> <X|K> <hdrRefuses 0|1>`
+    * `tckbuf <n> <c>`  `tckBufferSize`
     (`hdr`/`img` members: `<padLen>` = data offset inside the image file)
     * `xml <plainLen> <rootEnd> <k> <m> <strict>`
     `k` = bytes on disk (0 ⇒ `load` refuses), `m`/`strict` = what the opened file delivers. -/
@@ -67,6 +75,14 @@ def parseWhat? (s : String) : Option What :=
       | _, _, _ => none
     | [a] => a.toNat?.map What.tail
     | _ => none
+
+/-- `c,c,…`: `f` = in full, `r` = raise, a number = at most that many bytes; `-` = empty -/
+def parseSched? (s : String) : Option (List (Option Nat)) :=
+  if s = "-" then some []
+  else (s.splitOn ",").mapM (fun t =>
+    if t = "r" then some none
+    else if t = "f" then some (some 1000000000)
+    else t.toNat?.map some)
 
 /-- deterministic synthetic content -/
 def synth (seed n : Nat) : Bytes := (List.range n).map (fun i => (i * 7 + seed * 13 + 3) % 251)
@@ -166,6 +182,44 @@ def handle : List String → String
           let file := tckWrite t
           outcome (tckReadB bsz ⟨file.take m, st⟩) (streams.filter (· ≠ [])) ++ " " ++ toString file.length
       | _, _, _, _, _ => "bad-op"
+  | ["tckg", bsz, lines, npts, _k, m, sched] =>
+      match bsz.toNat?, parseHexList? lines, parseNatList? npts, m.toNat?, parseSched? sched with
+      | some bsz, some lines, some npts, some m, some sched =>
+          if bsz = 0 ∨ bsz % 12 ≠ 0 then "bad-op" else
+          let streams : List (List Bytes) := npts.zipIdx.map (fun (n, i) =>
+            (List.range n).map (fun j => synthTriple (i * 17 + j)))
+          let t : Tck := { lines := lines, streams := streams }
+          let file := tckWrite t
+          let bytes := file.take m
+          let rd := schedRd bytes (tckHeader t).length bsz sched
+          outcome (tckReadBG bsz bytes rd none) (streams.filter (· ≠ [])) ++ " " ++ toString file.length
+      | _, _, _, _, _ => "bad-op"
+  | ["trkg", nsc, npr, npts, _k, m, thr] =>
+      match nsc.toNat?, npr.toNat?, parseNatList? npts, m.toNat?, thr.toNat? with
+      | some nsc, some npr, some npts, some m, some thr =>
+          let recs : List TrkRec := npts.zipIdx.map (fun (n, i) =>
+            { npts := n, pts := synth (i + 1) (n * (3 + nsc) * 4), props := synth (i + 40) (npr * 4) })
+          let t : Trk := { nsc := nsc, npr := npr, fillA := synth 2 36, fillB := synth 3 200,
+                           fillC := synth 4 748, recs := recs }
+          let file := trkWrite t
+          let bytes := file.take m
+          let rdf : Nat → Nat → Except Err Bytes := fun pos n =>
+            if thr < pos + n then .error .trunc else .ok ((bytes.drop pos).take n)
+          outcome (trkReadGenG true bytes rdf) (trkData t) ++ " " ++ toString file.length
+      | _, _, _, _, _ => "bad-op"
+  | ["hdrtab", hs, sl, ex, fo, ft, len, st] =>
+      match hs.toNat?, sl.toNat?, parseBool? ex, parseOptNat? fo, ft.toNat?, len.toNat?, parseBool? st with
+      | some hs, some sl, some ex, some fo, some ft, some len, some st =>
+          let fmt : VolFmt := ⟨hs, sl, ex, fo, ft⟩
+          let s : Src := ⟨synth 11 len, st⟩
+          let cls {α : Type} (r : Except Err α) : String := match r with | .ok _ => "K" | .error _ => "X"
+          cls (readHeader fmt false s) ++ " " ++ cls (readHeader fmt.noSniff false s) ++ " " ++
+            (if hdrRefuses fmt len then "1" else "0")
+      | _, _, _, _, _, _, _ => "bad-op"
+  | ["tckbuf", n, c] =>
+      match n.toNat?, c.toNat? with
+      | some n, some c => if c = 0 then "bad-op" else toString (tckBufferSize n c)
+      | _, _ => "bad-op"
   | ["xml", plen, rootEnd, k, m, st] =>
       match plen.toNat?, rootEnd.toNat?, k.toNat?, m.toNat?, parseBool? st with
       | some plen, some rootEnd, some k, some m, some st =>
